@@ -79,42 +79,44 @@ const xUnset = "<unset>"
 
 // the failure classes of C12 as concrete Jet expressions over the harness globals (see xBuild)
 var errExpr = map[string]string{
-	"identifier":          "nosuchvar",
-	"field":               "gst.Nosuch",
-	"unexported":          "gst.hidden",
-	"method":              "gst.NoMethod()",
-	"nilderef":            "gnilp.Name",
-	"mapfield-ok":         "gst.Nosuch.Deeper",
-	"index-range":         "gsl[5]",
-	"index-len":           "gsl[3]",
-	"index-empty":         "gempty[0]",
-	"index-neg":           "gsl[-1]",
-	"index-str":           "gstr[7]",
-	"index-strlen":        "gstr[3]",
-	"index-kind":          `gsl["x"]`,
-	"index-nil":           "gsl[nil]",
-	"slice-bound":         "gsl[1:9]",
-	"slice-kind":          `gsl["a":2]`,
-	"operand-mul":         `gstr * 2`,
-	"operand-add":         `gst + 1`,
-	"operand-neg":         `-gstr`,
-	"operand-cmp":         `gstr < 1`,
-	"calltarget":          "gstr(1)",
-	"calltarget-nil":      "gnil(1)",
-	"argcount":            `lower("a", "b")`,
-	"argcount-jetfunc":    `len("a", "b")`,
-	"argtype":             `repeat("a", "b")`,
-	"arg-invalid":         `lower(gnil)`,
-	"underscore":          `lower(_)`,
-	"underscore-jetfunc":  `len(_)`,
-	"underscore-variadic": `gjoin("-", "a", _)`,
-	"argcount-variadic":   `gjoin()`,
-	"func":                "fail()",
-	"panic":               "gpanic()", // a user function panicking with a value that is not an error: escapes Execute
-	"len-kind":            "len(5)",
-	"ints-range":          "ints(3, 1)",
-	"pipe-nonfunc":        `"a" | gstr`,
-	"safewriter-notlast":  `"a" | raw | lower`,
+	"identifier":             "nosuchvar",
+	"field":                  "gst.Nosuch",
+	"unexported":             "gst.hidden",
+	"method":                 "gst.NoMethod()",
+	"nilderef":               "gnilp.Name",
+	"mapfield-ok":            "gst.Nosuch.Deeper",
+	"index-range":            "gsl[5]",
+	"index-len":              "gsl[3]",
+	"index-empty":            "gempty[0]",
+	"index-neg":              "gsl[-1]",
+	"index-str":              "gstr[7]",
+	"index-strlen":           "gstr[3]",
+	"index-kind":             `gsl["x"]`,
+	"index-nil":              "gsl[nil]",
+	"slice-bound":            "gsl[1:9]",
+	"slice-kind":             `gsl["a":2]`,
+	"operand-mul":            `gstr * 2`,
+	"operand-add":            `gst + 1`,
+	"operand-neg":            `-gstr`,
+	"operand-cmp":            `gstr < 1`,
+	"calltarget":             "gstr(1)",
+	"calltarget-nil":         "gnil(1)",
+	"argcount":               `lower("a", "b")`,
+	"argcount-jetfunc":       `len("a", "b")`,
+	"argtype":                `repeat("a", "b")`,
+	"arg-invalid":            `lower(gnil)`,
+	"underscore":             `lower(_)`,
+	"underscore-jetfunc":     `len(_)`,
+	"underscore-variadic":    `gjoin("-", "a", _)`,
+	"argcount-variadic":      `gjoin()`,
+	"func":                   "fail()",
+	"panic":                  "gpanic()", // a user function panicking with a value that is not an error: escapes Execute
+	"len-kind":               "len(5)",
+	"ints-range":             "ints(3, 1)",
+	"pipe-nonfunc":           `"a" | gstr`,
+	"argcount-piped-jetfunc": `1 | ints(2, 3)`,
+	"argcount-piped":         `"a" | lower("b")`,
+	"safewriter-notlast":     `"a" | raw | lower`,
 }
 
 type gStruct struct {
@@ -530,7 +532,7 @@ func atomValue(v string) interface{} {
 
 // classes whose error is raised by a called Go function (no file:line by contract)
 var calleeClasses = map[string]bool{"func": true, "panic": true, "template-exec": true, "yieldarg": true, "len-kind": true, "ints-range": true,
-	"argcount-jetfunc": true, "underscore-jetfunc": true, "api-assign": true, "api-block": true}
+	"argcount-jetfunc": true, "argcount-piped-jetfunc": true, "underscore-jetfunc": true, "api-assign": true, "api-block": true}
 
 type xObs struct {
 	Out   string `json:"out"`
